@@ -33,6 +33,12 @@ def candidates(t, steps):
 def o_quantise(inp):
     a = [tuple(m) for m in inp["abs"]]
     steps = list(inp["steps"])
+    if not steps or any(s <= 0 for s in steps):
+        return [("~skip:bad-steps", "")]
+    pre, _ = abs_timed(a)
+    if wf_violations(pre) or any(on >= off for (_, _, on, off, _) in notes_of(pre)) \
+            or a != sorted(a, key=lambda m: (m[2], m[1], m[0], -1 if m[3] is None else m[3])):
+        return [("~skip:not-well-formed-sorted", "")]      # the property is about well-formed sequences
     S = max(steps)
     real = [to_real(m) for m in a]
     orig_time = {id(m): m.time for m in real}
